@@ -465,7 +465,10 @@ func (e *kvElection) attemptPriorityTakeover(payloadBytes []byte) error {
 
 	var currentPayload leadershipPayload
 	if err := json.Unmarshal(entry.Value(), &currentPayload); err != nil {
-		return e.attemptAcquire()
+		// Do not call attemptAcquire again from here: it would call back
+		// into this function for as long as the record stays unparsable.
+		// The caller's retry/periodic check will come back.
+		return fmt.Errorf("cannot parse current leadership record: %w", err)
 	}
 
 	if e.cfg.Priority <= currentPayload.Priority {
